@@ -35,4 +35,6 @@ func TestMkReplay(t *testing.T) {
 		write("KF-array-alias.json", "C09", "locality",
 			"b = a; b.push(3): the push is invisible through a (an array's length lives in each copy of the array value)", c, c.Source())
 	}
+	write("FX-C03-stray-bracket.json", "C03", "stream", "[1] ] [2]: a stray ']' between values ended the run silently with success",
+		&C03Case{Data: "[1] ] [2]", FailAt: -1, Prog: 1, What: "stray ']' between values"}, "{ print }")
 }
